@@ -115,7 +115,7 @@ Proof.
           cbn in Hx. destruct Hx as [<-|[]]. right; reflexivity.
         + rewrite gs_sproj_other in Hx. left. apply in_part_handles. right; left. exists (other sd); exact Hx.
       - left. apply in_part_handles; auto. }
-    destruct Hcase as [H|->]; auto. right. split.
+    destruct Hcase as [H| ->]; auto. right. split.
     + unfold old_in, h, child_handle; cbn [h_kind h_k0 h_k1 h_k2]. unfold ctr16; cbn [h_k1 h_k2]. destruct sd; cbn [gcounter group_kind];
         cbv [KIND_WRITER_GROUP KIND_READER_GROUP KIND_WRITER_WITH_KEY KIND_READER_WITH_KEY KIND_TOPIC]; lia.
     + destruct (pi_self _ Hi) as (i & _ & E). unfold h. rewrite E. unfold child_handle, part_handle.
@@ -154,7 +154,7 @@ Proof.
   - apply in_flat_map. exists (gproj y). split; auto. apply in_map; auto.
   - apply in_flat_map. exists (gproj z). split; [apply in_map; auto|].
     unfold gsk_handles, gproj in *. cbn [fst snd g_h g_eps set_group_eps] in *. destruct Hx' as [H|H]; [left; auto|right].
-    rewrite map_map in *. apply in_map_iff in H. destruct H as (e & <- & He). apply in_map_iff. exists e; split; auto.
+    rewrite map_map in *. apply in_map_iff in H. destruct H as (e0 & <- & He0). apply in_map_iff. exists e0; split; auto.
     eapply rem_first_in; eauto.
 Qed.
 
@@ -215,7 +215,7 @@ Proof.
   destruct H2 as [Hc Hh]. split.
   - destruct Hc as (c1 & c2 & c3 & c4 & c5). pose proof (counters_skel _ _ Hs) as (d1 & d2 & d3 & d4 & d5).
     unfold counters_le. lia.
-  - intros x Hx. rewrite (part_handles_skel _ _ Hs) in Hx. destruct (Hh x Hx) as [H|->]; auto. right. split.
+  - intros x Hx. rewrite (part_handles_skel _ _ Hs) in Hx. destruct (Hh x Hx) as [H| ->]; auto. right. split.
     + unfold old_in, h. pose proof (pi_tc _ Hi). rewrite ctr16_child by lia. unfold child_handle; cbn.
       cbv [KIND_WRITER_GROUP KIND_READER_GROUP KIND_WRITER_WITH_KEY KIND_READER_WITH_KEY KIND_TOPIC]. lia.
     + destruct (pi_self _ Hi) as (i & _ & E). unfold h. rewrite E. unfold child_handle, part_handle; cbn. intros E'; inversion E'.
@@ -249,14 +249,18 @@ Proof.
         + left. apply in_part_handles. right; left. exists sd. apply in_flat_map. exists (gproj y). split; auto.
           apply in_map; auto.
         + unfold gsk_handles, gproj in Hx'. cbn [fst snd g_h g_eps set_group_eps] in Hx'.
-          rewrite map_map, map_app, in_app_iff in Hx'. cbn [map In eproj e_h fst] in Hx'.
-          destruct Hx' as [H|[H|[H|[]]]]; auto; left; apply in_part_handles; right; left; exists sd;
-            apply in_flat_map; exists (gproj z); (split; [apply in_map; auto|]); unfold gsk_handles, gproj;
-            cbn [fst snd]; [left; auto|right]. rewrite map_map. exact H.
+          assert (Hz' : In x (gsk_handles (gproj z)) -> In x (part_handles p)).
+          { intros H. apply in_part_handles. right; left. exists sd. apply in_flat_map. exists (gproj z).
+            split; [apply in_map; auto|exact H]. }
+          destruct Hx' as [H|H].
+          * left. apply Hz'. left. exact H.
+          * rewrite map_map, map_app, in_app_iff in H. destruct H as [H|H].
+            { left. apply Hz'. right. unfold gproj; cbn [snd]. rewrite map_map. exact H. }
+            { cbn in H. destruct H as [<-|[]]. right. reflexivity. }
       - assert (E : forall l, sproj (other sd) (set_groups sd (set_ecounter sd p cv) l) = sproj (other sd) p)
           by (intros; destruct sd; reflexivity).
         rewrite E in Hx. left. apply in_part_handles. right; left. exists (other sd). exact Hx. }
-    destruct Hcase as [H|->]; auto. right. split.
+    destruct Hcase as [H| ->]; auto. right. split.
     - unfold old_in, h. pose proof (pi_ec _ Hi sd). rewrite ctr16_child by lia. unfold child_handle; cbn.
       destruct sd; cbn;
         cbv [KIND_WRITER_GROUP KIND_READER_GROUP KIND_WRITER_WITH_KEY KIND_READER_WITH_KEY KIND_TOPIC]; cbn in *; lia.
@@ -276,7 +280,7 @@ Proof.
     + destruct q as [x|]; [destruct (is_consistent (ekind_of SPub) x)|].
       * rewrite Hpo in Ho. apply orb_false_iff in Ho. destruct Ho as [_ Hcv]. apply Hpush; auto.
       * cbn [fst] in *. rewrite es0_ovf in Ho. apply orb_false_iff in Ho. destruct Ho as [_ Hcv].
-        destruct (Hcnt Hcv) as [H1 H2]. split; auto. intros y Hy. rewrite H2 in Hy. auto.
+        destruct (Hcnt Hcv) as [H1 H2]. split; [exact H1|intros y Hy; rewrite H2 in Hy; auto].
       * rewrite Hpo in Ho. apply orb_false_iff in Ho. destruct Ho as [_ Hcv]. apply Hpush; auto.
   - destruct q as [x|]; [destruct (is_consistent (ekind_of SSub) x); [|split; [apply counters_le_refl|auto]]|].
     + destruct (panics pr cv) eqn:Hpan.
